@@ -26,7 +26,7 @@ func init() {
 
 var profC18 = Profile{
 	MaxBars: 8, MinBars: 1, MaxSteps: 45, Refresh: []string{"manual", "manual", "manual", "autoinj", "autort"}, QLens: []int{-1},
-	Pop: 100, Queue: 15, Prio: true, Ext: 30, Text: 2, Rm: 20, NoPop: 25, AbortW: 3, TicksW: 10,
+	Pop: 100, Queue: 15, Prio: true, PrioOnFinished: true, Ext: 30, Text: 2, Rm: 20, NoPop: 25, AbortW: 3, TicksW: 10,
 	Pty: 30, PtyRowsMax: 12, Fillers: []string{"tag", "bar"}, LateAdd: true, OnCompleteFill: 30,
 }
 
